@@ -150,6 +150,48 @@ fn parse(cs: &[u8]) -> Option<(Val, &[u8])> {
     }
 }
 
+/// Every way of consuming an iterator must agree with stepping it with `next`: `nth`, `skip`, `count`, `last`
+/// and the size hints along the way (a specialised `nth`/`count`/`last` is a classic place for an off-by-one).
+/// `mk` makes a fresh iterator (adaptors such as `map` do not forward `nth`, so the methods are called on the
+/// iterator itself and `show` is applied afterwards); `want` is what stepping yielded.
+pub fn iter_audit<I, T, U: PartialEq + std::fmt::Debug>(mk: impl Fn() -> I, show: impl Fn(T) -> U, want: &[U]) -> Option<String>
+where
+    I: Iterator<Item = T>,
+{
+    let n = want.len();
+    let mut ks = vec![0, 1, n / 2, n.saturating_sub(1), n, n + 1];
+    ks.sort();
+    ks.dedup();
+    for &k in &ks {
+        let got = mk().nth(k).map(&show);
+        if got.as_ref() != want.get(k) {
+            return Some(format!("nth({})={:?},by-next={:?}", k, got, want.get(k)));
+        }
+        let got = mk().skip(k).next().map(&show);
+        if got.as_ref() != want.get(k) {
+            return Some(format!("skip({}).next()={:?},by-next={:?}", k, got, want.get(k)));
+        }
+        let mut it = mk();
+        for _ in 0..k.min(n) {
+            let _ = it.next();
+        }
+        let rem = n - k.min(n);
+        let (lo, hi) = it.size_hint();
+        if lo > rem || hi.map_or(false, |h| h < rem) {
+            return Some(format!("after {} of {}: size_hint=({},{:?})", k.min(n), n, lo, hi));
+        }
+        let c = it.count();
+        if c != rem {
+            return Some(format!("after {} of {}: count()={}", k.min(n), n, c));
+        }
+    }
+    let last = mk().last().map(&show);
+    if last.as_ref() != want.last() {
+        return Some(format!("last()={:?},by-next={:?}", last, want.last()));
+    }
+    None
+}
+
 /// Read items and indices → wire values. Rendering a composite item goes through *every* accessor
 /// (len, is_empty, get, iter) and reports `Val::Bad` when they contradict each other.
 pub trait Render {
@@ -413,6 +455,15 @@ macro_rules! seq_item_body { ($r:ident, $item:ident) => {{
             return Val::Bad(format!("get({})={},iter={}", i, g.render(), v.render()));
         }
     }
+    if by_iter.len() < CAP {
+        if let Some(m) = iter_audit(|| $item.iter(), |x| $r::render(x), &by_iter) {
+            return Val::Bad(m);
+        }
+        let n = $item.iter().len();
+        if n != len {
+            return Val::Bad(format!("len={},iter().len()={}", len, n));
+        }
+    }
     Val::List(by_iter)
 }} }
 macro_rules! seq_item_acc { ($r:ident, $item:ident, $op:ident, $arg:ident) => {
@@ -420,7 +471,15 @@ macro_rules! seq_item_acc { ($r:ident, $item:ident, $op:ident, $arg:ident) => {
         "len" => Val::Nat($item.len() as u128),
         "is_empty" => Val::Nat($item.is_empty() as u128),
         "get" => $r::render($item.get($arg)),
-        "iter" => Val::List($item.iter().take(CAP).map(|x| $r::render(x)).collect()),
+        "iter" => {
+            let by_iter: Vec<Val> = $item.iter().take(CAP).map(|x| $r::render(x)).collect();
+            if by_iter.len() < CAP {
+                if let Some(m) = iter_audit(|| $item.iter(), |x| $r::render(x), &by_iter) {
+                    return Some(Val::Bad(m));
+                }
+            }
+            Val::List(by_iter)
+        }
         "iterlen" => Val::Nat($item.iter().len() as u128),
         _ => return None,
     })
